@@ -563,8 +563,10 @@ impl FixtureDatabase {
             );
         }
 
-        // Check if this is a test function
-        let is_test = func_name.starts_with("test_");
+        // Check if this is a test function. A function decorated as a fixture is a fixture even
+        // when it is called `test_*` (pytest does not collect it): its parameters were recorded
+        // above and must not be recorded a second time.
+        let is_test = func_name.starts_with("test_") && fixture_decorator.is_none();
 
         if is_test {
             debug!("Found test function: {}", func_name);
